@@ -48,6 +48,10 @@ def shift (sg n : Int) : Int :=
 def tieUp (delta_up delta_down : Int) : Bool :=
   if TIE_UP then decide (delta_up ≤ delta_down) else decide (delta_up < delta_down)
 
+/-- the same comparison in `round_subsecs` -/
+def tieUpSubsec (delta_up delta_down : Int) : Bool :=
+  if TIE_UP_SUBSEC then decide (delta_up ≤ delta_down) else decide (delta_up < delta_down)
+
 /-- `DateTime<Utc>::timestamp_nanos_opt` on `(timestamp(), timestamp_subsec_nanos())` -/
 def timestamp_nanos_opt (timestamp subsec : Int) : Option Int :=
   let ts := if timestamp < 0 then timestamp + 1 else timestamp
@@ -65,7 +69,7 @@ def duration_round (stamp : Option Int) (span : Option Int) : Res RR :=
   match span with
   | none => .ok (.err .DurationExceedsLimit)
   | some span =>
-    if span ≤ SPAN_REFUSED_MAX then .ok (.err .DurationExceedsLimit)
+    if span ≤ SPAN_REFUSED_MAX_ROUND then .ok (.err .DurationExceedsLimit)
     else match stamp with
     | none => .ok (.err .TimestampExceedsLimit)
     | some stamp =>
@@ -95,7 +99,7 @@ def duration_trunc (stamp : Option Int) (span : Option Int) : Res RR :=
   match span with
   | none => .ok (.err .DurationExceedsLimit)
   | some span =>
-    if span ≤ SPAN_REFUSED_MAX then .ok (.err .DurationExceedsLimit)
+    if span ≤ SPAN_REFUSED_MAX_TRUNC then .ok (.err .DurationExceedsLimit)
     else match stamp with
     | none => .ok (.err .TimestampExceedsLimit)
     | some stamp =>
@@ -116,7 +120,7 @@ def duration_round_up (stamp : Option Int) (span : Option Int) : Res RR :=
   match span with
   | none => .ok (.err .DurationExceedsLimit)
   | some span =>
-    if span ≤ SPAN_REFUSED_MAX then .ok (.err .DurationExceedsLimit)
+    if span ≤ SPAN_REFUSED_MAX_UP then .ok (.err .DurationExceedsLimit)
     else match stamp with
     | none => .ok (.err .TimestampExceedsLimit)
     | some stamp =>
@@ -180,7 +184,7 @@ def round_subsecs (frac : Int) (digits : Nat) : Res (Int × Int) :=
       match ckU32 (span - delta_down) with
       | .panic => .panic
       | .ok delta_up =>
-        if tieUp delta_up delta_down then .ok (apply_within frac (shift 1 delta_up))
+        if tieUpSubsec delta_up delta_down then .ok (apply_within frac (shift 1 delta_up))
         else .ok (apply_within frac (shift (-1) delta_down))
     else .ok (frac, 0)
 
